@@ -43,6 +43,9 @@ def l1_campaign(ctx, nscripts, modes=("w", "r", "rw"), max_ops=24, gen=None):
     model = S.run_model_parallel(ctx, scripts)
     findings = []
     stats = collections.Counter()
+    if scripts:
+        k0 = len(scripts) // 2
+        ctx.notes["l1_example"] = {"name": scripts[k0][0], "script": scripts[k0][1][:900], "implementation_transcript_head": impl.get(scripts[k0][0], [])[:6]}
     for n, t in scripts:
         i, m = impl.get(n, []), model.get(n, [])
         stats["scripts"] += 1
@@ -101,6 +104,9 @@ def allformat_read_campaign(ctx, stride=1, nops=30, channels=(1, 2, 3), route_sk
         tests.append((name, f, ch, F, info, R.test_phase(rng, f, ch, F, info["filehex"], nops)))
         ctx.distinct.add("fmt:" + f.name)
     out2 = ctx.batch([(n, t) for (n, f, ch, F, info, t) in tests])
+    if tests:
+        t0 = tests[len(tests) // 2]
+        ctx.notes["allformat_example"] = {"name": t0[0], "frames": t0[3], "script": t0[5][-900:], "implementation_transcript_tail": out2.get(t0[0], [])[-4:]}
     for (name, f, ch, F, info, t) in tests:
         stats["histories"] += 1
         stats["ops"] += nops
